@@ -151,12 +151,55 @@ def run(ctx):
     if res.records:
         ctx.sample({"legacy_vector": res.records[0]})
 
+    # ---- 2b. legacy histogram: relations between outputs of the real code (instances and relations from TLC) ----
+    #   normalised: sum(pdf)*interval = 1 and the bin ratios equal those of the un-normalised run (any scale option)
+    #   reuse: an object that processed other data before gives exactly what a fresh object gives
+    items = []
+    recs = res.records
+    for i, r in enumerate(recs):
+        d = " ".join(repr(x / 4.0) for x in r["d"])
+        d2 = " ".join(repr(x / 4.0) for x in r["d2"])
+        fresh = lambda norm: "legacyx %d 0 %d %s 0 %d %s" % (r["n"], norm, r["sc"], len(r["d"]), d)
+        cmds = [fresh(0), fresh(1)]
+        if r["d2"]:
+            cmds.append("legacyx %d 0 1 %s %d %s %d %s" % (r["n"], r["sc"], len(r["d2"]), d2, len(r["d"]), d))
+        items.append((i, cmds))
+    results, crashes = vlib.run_items(exe, items)
+    n_rel = 0
+    for i, r in enumerate(recs):
+        ctx.count()
+        sc = r["sc"]
+        if i in crashes:
+            ctx.violation("Histogram:%s:crash" % sc, "driver aborted on %s: %s" % (r, crashes[i]), r)
+            continue
+        out = [x[0].split() if x else ["?"] for x in results[i]]
+        if any(o[0] != "legacy" for o in out):
+            ctx.violation("Histogram:%s:exception" % sc, "legacy histogram failed on %s: %s" % (r, results[i]), r)
+            continue
+        raw = [float(t) for t in out[0][4:]]
+        nrm = [float(t) for t in out[1][4:]]
+        iv = float(out[1][3])
+        n_rel += 1
+        if not vlib.close(sum(nrm) * iv, 1.0, 1e-12, 0):
+            ctx.violation("Histogram:normalize:%s:integral" % sc, "sum(pdf)*interval = %r, not 1, for %s" % (sum(nrm) * iv, r), r)
+        elif any(not vlib.close(nrm[a] * raw[b], nrm[b] * raw[a], 1e-12, 1e-300) for a in range(len(raw)) for b in range(a)):
+            ctx.violation("Histogram:normalize:%s:ratios" % sc, "normalisation changed the bin ratios: %s vs %s for %s" % (nrm, raw, r), r)
+        if len(out) > 2:
+            ctx.traces += 1
+            if out[2][1:] != out[1][1:]:
+                ctx.violation("Histogram:reuse:%s" % sc, "an object that processed %s before gives %s, a fresh object %s" % (r["d2"], out[2][1:], out[1][1:]), r)
+    ctx.extra["legacy_relations_checked"] = n_rel
+
     # ---- 3. histories (mode H) ----------------------------------------------------------
     hists = []
     mod = "MCHistQuick" if quick else "MCHistThorough"
     res = vlib.tlc("histogram", mod, cfg=mod + ".cfg", timeout=1500, coverage=False)
     vlib.tlc_must_hold(res, "Histogram state machine invariants")
     ctx.add_tlc(mod, res)
+    hists += res.records
+    res = vlib.tlc("histogram", "MCHistDeep", cfg="MCHistDeep.cfg", timeout=1500)
+    vlib.tlc_must_hold(res, "Histogram state machine invariants (depth 5, small alphabet)")
+    ctx.add_tlc("MCHistDeep", res)
     hists += res.records
     nsim = 320 if quick else 8000   # traces; every successor of the last step is exported too
     res = vlib.tlc("histogram", "MCHistSim", cfg="MCHistSim.cfg", timeout=1500, simulate=nsim // 4, depth=9,
